@@ -29,14 +29,42 @@ def run(tier, replay=None):
     vlib.go_build()
     rng = random.Random(vlib.seed())
     wd = vlib.scratch("c13")
-    progs = pshapes.catalogue() + [q for q in fshapes.catalogue() if q["name"] in ("vf_top", "vf_split_vol", "vf_map_top", "vf_map_sub")]
+    progs = pshapes.catalogue() + pshapes.clash_catalogue() + \
+        [q for q in fshapes.catalogue() if q["name"] in ("vf_top", "vf_split_vol", "vf_map_top", "vf_map_sub")]
     with open(os.path.join(wd, "progs.ndjson"), "w") as f:
         for q in progs:
             f.write(json.dumps(q) + "\n")
     r = vlib.run_tlc("PostGen", "PostGen.cfg", workdir=wd, workers=1, timeout=1200)
     if not r.ok:
         raise vlib.Infra("PostGen: " + r.out[-1000:])
-    post = {json.loads(l)["name"]: json.loads(l)["outs"] for l in open(os.path.join(wd, "post_out.ndjson"))}
+    rows = [json.loads(l) for l in open(os.path.join(wd, "post_out.ndjson"))]
+    post = {x["name"]: x["outs"] for x in rows}
+    clash = {x["name"] for x in rows if x["clash"]}
+    viols = []
+    # declarations the model says send two files to one name must be refused by the compiler
+    import mro
+    import subprocess
+    with open(os.path.join(wd, "c.ndjson"), "w") as f:
+        for q in progs:
+            f.write(json.dumps({"Id": q["name"], "Src": mro.render(q)}) + "\n")
+    p = subprocess.run([os.path.join(vlib.BUILD, "bin", "vh"), "compile-batch", os.path.join(wd, "c.ndjson"),
+                        os.path.join(wd, "o.ndjson")], stdout=subprocess.PIPE, stderr=subprocess.PIPE, text=True,
+                       env=vlib.GOENV, timeout=600, cwd=wd)
+    if p.returncode != 0:
+        raise vlib.Infra("compile-batch: rc=%d %s" % (p.returncode, p.stderr[-1000:]))
+    comp = {json.loads(l)["id"]: json.loads(l) for l in open(os.path.join(wd, "o.ndjson"))}
+    for q in progs:
+        o = comp[q["name"]]
+        if q["name"] in clash and o["ok"]:
+            viols.append({"key": "C13:%s:clash-accepted" % q["name"],
+                          "what": "program %s declares two outputs that are sent to the same name under outs/ and the compiler accepts it (one of them cannot be materialised)" % q["name"],
+                          "replay": {"program.mro": mro.render(q)}})
+        elif q["name"] in clash and "DuplicateNameError" not in o["error"]:
+            raise vlib.Infra("clash program %s rejected for another reason: %s" % (q["name"], o["error"][:300]))
+        elif q["name"] not in clash and not o["ok"]:
+            raise vlib.Infra("program %s does not compile: %s" % (q["name"], o["error"][:300]))
+    nclash = len(clash)
+    progs = [q for q in progs if q["name"] not in clash]
     sem, _ = psrun.semantics(progs)
     specs = []
     nsched = 2 if tier == "quick" else 12
@@ -45,11 +73,10 @@ def run(tier, replay=None):
             for k in range(nsched):
                 specs.append(psrun.make_spec(q, sem[q["name"]], {"kind": "random", "seed": rng.randrange(1 << 30), "penv": rng.choice([0.3, 0.7])},
                                              name="%s#%s%d" % (q["name"], mode, k), vdr=mode, files=True, post=post[q["name"]],
-                                             phys_paths=(k % 3 == 2)))
+                                             phys_paths=(k % 2 == 1)))
     if replay:
         specs = [json.load(open(os.path.join(replay, "spec.json")))]
     res = psrun.run_specs(specs, nproc=16)
-    viols = []
     checked = 0
     for s, rr in zip(specs, res):
         prog = s["name"].split("#")[0]
@@ -68,7 +95,7 @@ def run(tier, replay=None):
         "states": len(progs), "transitions": len(specs), "exhaustive": False,
         "traces_validated_against_impl": len(specs),
         "programs": [q["name"] for q in progs], "runs": len(specs), "vdr_modes": list(MODES),
-        "moved_files_checked": checked,
+        "moved_files_checked": checked, "clashing_declarations_refused": nclash,
         "samples": [{"program": specs[0]["name"], "post_checked": res[0].get("post_checked")}],
         "known_findings_hit": hit,
     }, [
